@@ -136,16 +136,17 @@ def run_job(spec):
             if not structs.wellformed(ident):
                 continue
             k = structs.kind_of(ident)
-            st = dict(nsat=1, nsig=1, cellmask='ones') if k == 'msm' else dict(harm=(0, 1, 1)) if k == 'harm' else \
-                dict(flags=5) if k == 'flags' else dict(mode=('uniform', 1))
-            d = msgdrv.Directed(ident, structs.chooser(st), spare=1)
-            eng = sym.Engine(max_paths=16, conc_limit=4)
+            sts = [dict(nsat=1, nsig=1, cellmask='ones'), dict(nsat=0, nsig=0, cellmask='zero'), dict(nsat=0, nsig=1, cellmask='zero')] if k == 'msm' else \
+                [dict(harm=(0, 1, 1))] if k == 'harm' else [dict(flags=5)] if k == 'flags' else [dict(mode=('uniform', 1)), dict(mode=('uniform', 0))]
+            for st in sts:
+                d = msgdrv.Directed(ident, structs.chooser(st), spare=1)
+                eng = sym.Engine(max_paths=16, conc_limit=4)
 
-            def fn():
-                return RTCMMessage(payload=d.build(eng))
-            for path in eng.explore(fn):
-                check_path(eng, path, d.p, d.L, res, defined, msmset)
-            res.absorb_engine(eng)
+                def fn():
+                    return RTCMMessage(payload=d.build(eng))
+                for path in eng.explore(fn):
+                    check_path(eng, path, d.p, d.L, res, defined, msmset)
+                res.absorb_engine(eng)
         return res
     if spec[0] == 'hist':
         # a message number WITHOUT definition parsed first (same 12-bit number where the family allows it: an undefined 4076 sub-type),
